@@ -1,0 +1,45 @@
+//go:build verif
+
+package discover
+
+import (
+	"crypto/ecdsa"
+	"net"
+)
+
+// Verification-harness exports (read-only) for the packet model of C15: constants of udp.go and the expiry test.
+
+const (
+	MacSizeVerif         = macSize
+	SigSizeVerif         = sigSize
+	ExpirationNanosVerif = int64(expiration)
+	PingPacketVerif      = pingPacket
+	PongPacketVerif      = pongPacket
+	FindnodePacketVerif  = findnodePacket
+	NeighborsPacketVerif = neighborsPacket
+	BucketSizeVerif      = bucketSize
+)
+
+// MaxNeighborsVerif is the number of nodes init() computed for one neighbors datagram.
+func MaxNeighborsVerif() int { return maxNeighbors }
+
+// ExpiredVerif is the expiry test every handle method starts with.
+func ExpiredVerif(ts uint64) bool { return expired(ts) }
+
+// EncodeNeighborsVerif builds a signed neighbors packet of n identical nodes (IP of ipLen bytes all equal to ipByte).
+func EncodeNeighborsVerif(priv *ecdsa.PrivateKey, n, ipLen int, ipByte byte, udpPort, tcpPort uint16, expiration uint64) ([]byte, error) {
+	nb := neighbors{Expiration: expiration}
+	ip := make(net.IP, ipLen)
+	for i := range ip {
+		ip[i] = ipByte
+	}
+	for i := 0; i < n; i++ {
+		nb.Nodes = append(nb.Nodes, rpcNode{IP: ip, UDP: udpPort, TCP: tcpPort, ID: PubkeyID(&priv.PublicKey)})
+	}
+	return encodePacket(priv, neighborsPacket, nb)
+}
+
+// HandlePacketVerif hands a datagram to the handlePacket of a listening table's transport and returns its error.
+func HandlePacketVerif(tab *Table, from *net.UDPAddr, buf []byte) error {
+	return tab.net.(*udp).handlePacket(from, buf)
+}
